@@ -22,18 +22,24 @@ def run(tier, deadline):
             for n in range(0, 9):
                 nsh = 16 if n == 1 else 8 if n == 3 else 4 if n == 4 else 1
                 if v != "prod" and n == 1: nsh = 16
-                for sh in range(nsh): jobs.append((v, fn, n, sh, nsh))
+                for sh in range(nsh): jobs.append((v, fn, n, sh, nsh, 0))
+            # longer operands: block borders of vectorised or block-wise implementations (16, 32, 64, 4096)
+            longer = [(16, 4, 0), (33, 4, 0), (4097, 16, 1)] if tier == "quick" else \
+                     [(n, 2, 0) for n in (9, 12, 15)] + [(n, 4, 0) for n in (16, 17, 31, 32, 33)] + [(64, 8, 0), (65, 4, 0), (100, 4, 0), (4096, 16, 1), (4097, 16, 0)] + ([(8200, 16, 1)] if v in ("prod", "O2", "clangO2") else [])
+            for n, nsh, lite in longer:
+                for sh in range(nsh): jobs.append((v, fn, n, sh, nsh, lite))
+    jobs.sort(key=lambda j: -j[2])
     viol = {}; internal = []; samples = []; tot = {"traced": 0, "contents": 0}; per = {}; timed_out = []
     def one(j):
-        v, fn, n, sh, nsh = j
+        v, fn, n, sh, nsh, lite = j
         left = deadline - (time.time() - t0)
         if left < 3: timed_out.append(j); return j, None
-        try: return j, subprocess.run([BIN, fn, str(n), str(sh), str(nsh)], capture_output=True, text=True, env=dict(os.environ, CAT_LIB=libs[v]), timeout=left)
+        try: return j, subprocess.run([BIN, fn, str(n), str(sh), str(nsh)], capture_output=True, text=True, env=dict(os.environ, CAT_LIB=libs[v], **({"C19_LITE": "1"} if lite else {})), timeout=left)
         except subprocess.TimeoutExpired: timed_out.append(j); return j, None
     with ThreadPoolExecutor(16) as ex:
         for j, r in ex.map(one, jobs):
             if r is None: continue
-            v, fn, n, sh, nsh = j
+            v, fn, n, sh, nsh, lite = j
             if r.returncode != 0: internal.append(f"{j}: exit {r.returncode} {r.stdout[-200:]} {r.stderr[-200:]}"); continue
             for ln in r.stdout.splitlines():
                 if not ln.startswith("{"): continue
@@ -54,7 +60,7 @@ def run(tier, deadline):
     def confirm(vi):
         kv = dict(l.split("=", 1) for l in vi.replay_text.strip().splitlines()); return replay(kv, quiet=True) == 1
     cov = {"evaluations": tot["traced"], "distinct_nontrivial": max(2, tot["traced"] - 18 * len(variants)),
-           "rule": "for each build, function and n in 0..8: all 256^2 byte pairs for n=1, {00,01,7f,80,ff}^(2n) for n=2,3, {00,80,ff}^8 for n=4, first-difference-at-each-position families for n=5..8; each call single-stepped (trap flag) with operands, library data and the call's own stack PROT_NONE so every data access is logged; oracle: result sign equals memcmp's and the hash of (instruction addresses, data addresses+direction) is identical for all contents of the same n; non-trivial = contents other than the all-equal reference",
+           "rule": "for each build, function and n in 0..8: all 256^2 byte pairs for n=1, {00,01,7f,80,ff}^(2n) for n=2,3, {00,80,ff}^8 for n=4, first-difference-at-each-position families (3 byte orders x 3 suffix classes) for n=5..8 and for n in {16, 33} (thorough: 9, 12, 15, 16, 17, 31, 32, 33, 64); for long operands n in {4097} (thorough: 65, 100, 4096, 4097, 8200) the first difference at the borders of 16-, 64- and 4096-byte blocks, the middle and both ends (lite sets: -1, 0, 4095, 4096, n-1), two orders, equal or differing suffix; each call single-stepped (trap flag) with operands, library data and the call's own stack PROT_NONE so every data access is logged; oracle: result sign equals memcmp's and the hash of (instruction addresses, data addresses+direction) is identical for all contents of the same n; non-trivial = contents other than the all-equal reference",
            "samples": [{"build/fn/n": k, **v} for k, v in list(sorted(per.items()))[:12]],
            "per_build_fn_n": per, "builds": variants, "jobs_timed_out": len(timed_out)}
     assumptions = ["x86-64 trap flag delivers SIGTRAP after every instruction; page protection faults on every data access to the protected regions",
